@@ -8,3 +8,5 @@ import VProps.C13
 #print axioms V.C13.refused_if_key_invalid
 #print axioms V.C13.binding
 #print axioms V.C13.signed_request_accepted
+#print axioms V.C13.canonical_body_facts
+#print axioms V.C13.signed_request_accepted_canon
